@@ -15,5 +15,6 @@ INVARIANT FailureChangesNothing
 INVARIANT FailsWhenNotOperational
 INVARIANT OkOnlyOnSuccess
 INVARIANT ReportedActivity
+INVARIANT OnlyFaultExcuses
 PROPERTY ConnTableStep
 CHECK_DEADLOCK FALSE
